@@ -339,7 +339,7 @@ func Load(ctx context.Context, wd string, env []string, tags string, patterns []
 				}
 				errs = nil
 				for i := range calls {
-					errs = append(errs, injectorCallErrors(fset, fn.Pos(), fn.Name.Name, out, &calls[i], pkg.PkgPath)...)
+					errs = append(errs, injectorCallErrors(fset, fn.Pos(), fn.Name.Name, out, &calls[i], pkg.Types)...)
 				}
 				if len(errs) > 0 {
 					ec.add(errs...)
